@@ -16,6 +16,28 @@ def dec(tok):
     return base64.urlsafe_b64decode(tok + "=" * (-len(tok) % 4))
 
 
+def overlap_check(raws, label, successive=True):
+    """values must not share material: the end of one value is not the start of the next (>= 4 bytes), and no
+    6-byte window occurs in two different values (chance < 1e-6 for the sample sizes used here)"""
+    fails = []
+    if successive:
+        for a, b in zip(raws, raws[1:]):
+            for k in range(min(len(a), len(b)), 3, -1):
+                if a[-k:] == b[:k] or b[-k:] == a[:k]:
+                    fails.append("%s: successive values overlap in %d bytes (%s | %s)" % (label, k, a.hex(), b.hex()))
+                    return fails
+    if len(raws) <= 5000:
+        seen = {}
+        for idx, r in enumerate(raws):
+            for i in range(len(r) - 5):
+                w = r[i:i + 6]
+                j = seen.setdefault(w, idx)
+                if j != idx:
+                    fails.append("%s: values #%d and #%d share the 6-byte window %s" % (label, j, idx, w.hex()))
+                    return fails
+    return fails
+
+
 def stats_check(tokens, nbytes, label):
     """returns list of failure descriptions"""
     fails = []
@@ -34,6 +56,24 @@ def stats_check(tokens, nbytes, label):
         if abs(ones - n / 2.0) > 6.5 * sigma:
             fails.append("%s: bit %d is biased (%d ones of %d)" % (label, j, ones, n))
             break
+    # per byte position: every byte value must occur about n/256 times (a rejected leading character, a
+    # masked bit pattern or a clamped range empties or overfills some cells)
+    if n >= 20000:
+        exp = n / 256.0
+        sg = math.sqrt(exp * (1 - 1 / 256.0))
+        done = False
+        for i in range(nbytes):
+            cnt = [0] * 256
+            for r in raws:
+                cnt[r[i]] += 1
+            for b in range(256):
+                if abs(cnt[b] - exp) > 7.5 * sg:
+                    fails.append("%s: byte value 0x%02x occurs %d times at position %d of %d values (expected about %.0f)" % (label, b, cnt[b], i, n, exp))
+                    done = True
+                    break
+            if done:
+                break
+    fails += overlap_check(raws, label)
     # lag-1 serial correlation, per bit position: agreement between successive values
     m = n - 1
     sig2 = math.sqrt(m / 4.0)
@@ -82,6 +122,8 @@ def run(tier, rng, C):
             fails.append("csrf n=%d: byte position(s) %s never vary over %d draws" % (n, const[:6], draws))
         if n >= 4 and len(set(toks)) != len(toks):
             fails.append("csrf n=%d: repeated values among %d draws" % (n, draws))
+        if n >= 6:
+            fails += overlap_check(raws, "csrf n=%d" % n)
         per_n[n] = len(toks)
     for n in range(32, 97):
         toks = [o.split(" ")[1] for o in C.run_impl(["PKCERAND %d" % n for _ in range(draws)]) if o.startswith("ok ")]
@@ -91,6 +133,26 @@ def run(tier, rng, C):
             fails.append("pkce n=%d: byte position(s) %s never vary over %d draws" % (n, const[:6], draws))
         if len(set(toks)) != len(toks):
             fails.append("pkce n=%d: repeated values among %d draws" % (n, draws))
+        fails += overlap_check(raws, "pkce n=%d" % n)
+    # ONE thread, requested sizes and the two generators mixed in random order: every value still has
+    # exactly its own length and shares nothing with its neighbours
+    mixed = []
+    for _ in range(400 if tier == "quick" else 6000):
+        mixed.append(rng.choice(["CSRF %d" % rng.choice([16, 16, 20, 24, 1, 7, 33, 48, 96, 200]), "PKCERAND %d" % rng.choice([32, 32, 40, 43, 48, 64, 96])]))
+    outs = C.run_impl(mixed)
+    raws = []
+    for l, o in zip(mixed, outs):
+        want = int(l.split(" ")[1])
+        if not o.startswith("ok "):
+            fails.append("mixed sequence: %s answered %s" % (l, o[:60]))
+            break
+        r = dec(C.untb(o.split(" ")[1]).decode())
+        if len(r) != want:
+            fails.append("mixed sequence: %s produced %d bytes (after %d earlier calls on the same thread)" % (l, len(r), len(raws)))
+            break
+        raws.append(r)
+    fails += overlap_check([r for r in raws if len(r) >= 6], "mixed sequence")
+    stats["mixed_sequence_calls"] = len(mixed)
     stats["per_byte_count_variation_draws"] = draws
     # within ONE value: neighbouring bytes must not be equal more often than chance (a tail filled
     # with one repeated random byte passes the per-position test above)
